@@ -318,7 +318,10 @@ impl Run {
         let mut rlisted: std::collections::BTreeMap<u64, (String, i64)> = Default::default();
         let st_name = |s: &Status| -> &'static str { match s { Status::Open => "open", Status::Passed => "passed", Status::Rejected => "rejected", Status::Executed => "executed", Status::Pending => "pending" } };
         let mut cur: Option<u64> = None;
+        let mut guard = 0;
         loop {
+            guard += 1;
+            if guard > 60 { listed.insert(0, ("endless".into(), -1)); break; }
             let r: Option<cw3::ProposalListResponse> = self.q(&self.ms, &cw3_fixed_multisig::msg::QueryMsg::ListProposals { start_after: cur, limit: Some(30) });
             let Some(r) = r else { break };
             if r.proposals.is_empty() { break; }
@@ -326,7 +329,10 @@ impl Run {
             for p in r.proposals { listed.insert(p.id, (st_name(&p.status).to_string(), thr_resp_to_model(&p.threshold)["total"].as_i64().unwrap_or(-1))); }
         }
         let mut cur: Option<u64> = None;
+        let mut guard = 0;
         loop {
+            guard += 1;
+            if guard > 60 { rlisted.insert(0, ("endless".into(), -1)); break; }
             let r: Option<cw3::ProposalListResponse> = self.q(&self.ms, &cw3_fixed_multisig::msg::QueryMsg::ReverseProposals { start_before: cur, limit: Some(30) });
             let Some(r) = r else { break };
             if r.proposals.is_empty() { break; }
@@ -351,6 +357,7 @@ impl Run {
             let mut votes = vec![];
             let mut cursor: Option<String> = None;
             loop {
+                if votes.len() > 40 { break; }
                 let lv: VoteListResponse = w.smart(&self.ms, &cw3_fixed_multisig::msg::QueryMsg::ListVotes { proposal_id: id, start_after: cursor.clone(), limit: Some(30) }).unwrap();
                 if lv.votes.is_empty() {
                     break;
@@ -422,6 +429,7 @@ impl Run {
         let mut lvoters = vec![];
         let mut cursor: Option<String> = None;
         loop {
+            if lvoters.len() > 40 { break; }
             let r: Option<cw3::VoterListResponse> = self.q(&self.ms, &cw3_fixed_multisig::msg::QueryMsg::ListVoters { start_after: cursor.clone(), limit: Some(30) });
             let Some(r) = r else { break };
             if r.voters.is_empty() { break; }
